@@ -459,12 +459,13 @@ class Ctx:
             r = v["replay"]
             return (0 if r.get("failing_input_found", True) else 1, len(json.dumps(r)))
         for v in sorted(self.violations, key=vsize):
-            if v["key"] in seen:
+            dk = (v["key"], v["kf_class"] if (v["kf_class"] and v["kf_class"] in kf_classes) else None)
+            if dk in seen:
                 continue
             if nviol >= MAXV and not (v["kf_class"] and v["kf_class"] in kf_classes):
                 nviol += 1
                 continue
-            seen.add(v["key"])
+            seen.add(dk)
             if v["kf_class"] and v["kf_class"] in kf_classes:
                 k = kf_classes[v["kf_class"]]
                 tag = "KNOWN-FINDING: property=%s %s" % (self.prop, k["text"])
